@@ -180,6 +180,22 @@ pub fn check_filter(s: &str, packets: bool, all_fronts: bool) -> Result<bool, St
                         return Err(format!("{}: v3 {} / v5 {} but the specification says {}", what, a3, a5, if want { "valid" } else { "invalid" }));
                     }
                 }
+                // the same filter twice (and three times) in one SUBSCRIBE with *different* options: allowed, the later entry
+                // replaces the earlier one; the decision about the filter does not change
+                if typ == model::T_SUBSCRIBE {
+                    for opts in [&[0u8, 2][..], &[1, 0, 2][..], &[2, 2, 1][..]] {
+                        for fam in [Fam::V3, Fam::V5] {
+                            let props = if fam == Fam::V5 { Some(Props::default()) } else { None };
+                            let body = Body::Subscribe { pid: 7, props, topics: opts.iter().map(|o| (s.as_bytes().to_vec(), *o)).collect() };
+                            let frame = model::serialize(&WPacket::new(fam, (typ << 4) | 2, body)).unwrap_or_default();
+                            let what = format!("{} SUBSCRIBE carrying filter {:?} {} times with the option bytes {:?}", fam.name(), s, opts.len(), opts);
+                            let acc = if fam == Fam::V3 { packet_decision::<V3>(&frame, &e3, &what, true)? } else { packet_decision::<V5>(&frame, &e5, &what, true)? };
+                            if acc != want {
+                                return Err(format!("{}: {} but the specification says {}", what, if acc { "accepted" } else { "rejected" }, if want { "valid" } else { "invalid" }));
+                            }
+                        }
+                    }
+                }
                 // whether a filter is accepted does not depend on what a neighbouring entry asks for: the neighbour
                 // sets No Local, Retain As Published and Retain Handling 2 (the filter under test may be a shared one)
                 if typ == model::T_SUBSCRIBE {
